@@ -5,7 +5,8 @@ use core::cell::Cell;
 use core::marker::PhantomData;
 use core::alloc::Layout;
 use crate::{AnyVec, AnyVecMut, AnyVecRef, AnyVecTyped, IterMut, IterRef, SatisfyTraits};
-use crate::any_value::{AnyValueWrapper, LazyClone};
+use crate::any_value::{AnyValueCloneable, AnyValueWrapper, LazyClone};
+use crate::any_vec_ptr::AnyVecRawPtr;
 use crate::element::{Element, ElementMut, ElementRef};
 use crate::mem::{Empty, Mem, MemBuilder, MemBuilderSizeable, MemResizable, MemRawParts, Stack, StackN};
 use crate::ops::{Drain, Pop, Remove, Splice, SwapRemove};
@@ -180,6 +181,46 @@ macro_rules! typed_rows {
         only_if!(AnyVecMut<'static, $t, $b>: Send => &'static mut $b);
     )+ };
 }
+/// the iterators behind the typed view (`AnyVecTyped::{drain, splice}` run the same range iterators over a
+/// raw typed pointer): sendable / shareable only when the typed view itself is
+macro_rules! typed_iter_rows {
+    ($t:ty; $($b:ty),+) => { $(
+        only_if!(crate::iter::Iter<'static, AnyVecRawPtr<$t, $b>>: Send => &'static mut [$t]);
+        only_if!(crate::iter::Iter<'static, AnyVecRawPtr<$t, $b>>: Sync => &'static [$t]);
+        only_if!(crate::iter::Iter<'static, AnyVecRawPtr<$t, $b>>: Send => AnyVecTyped<'static, $t, $b>);
+        only_if!(crate::iter::Iter<'static, AnyVecRawPtr<$t, $b>>: Sync => AnyVecTyped<'static, $t, $b>);
+        only_if!(crate::ops::Iter<crate::ops::drain::Drain<'static, AnyVecRawPtr<$t, $b>>>: Send => &'static mut [$t]);
+        only_if!(crate::ops::Iter<crate::ops::drain::Drain<'static, AnyVecRawPtr<$t, $b>>>: Sync => &'static [$t]);
+        only_if!(crate::ops::Iter<crate::ops::drain::Drain<'static, AnyVecRawPtr<$t, $b>>>: Send => AnyVecTyped<'static, $t, $b>);
+        only_if!(crate::ops::Iter<crate::ops::splice::Splice<'static, AnyVecRawPtr<$t, $b>, core::iter::Empty<AnyValueWrapper<$t>>>>: Send => &'static mut [$t]);
+        only_if!(crate::ops::Iter<crate::ops::splice::Splice<'static, AnyVecRawPtr<$t, $b>, core::iter::Empty<AnyValueWrapper<$t>>>>: Send => AnyVecTyped<'static, $t, $b>);
+    )+ };
+}
+/// clone capability of value handles: a handle offers `lazy_clone` / `clone_into` exactly when its vector declares
+/// `Cloneable` ("clone() exists only with Cloneable", mirrored by every handle)
+macro_rules! cloneable_rows {
+    ($tr:ty, $clone:expr; $($b:ty),+) => { $(
+        cell!(Element<'static, $tr, $b>: AnyValueCloneable == $clone);
+        cell!(Pop<'static, $tr, $b>: AnyValueCloneable == $clone);
+        cell!(Remove<'static, $tr, $b>: AnyValueCloneable == $clone);
+        cell!(SwapRemove<'static, $tr, $b>: AnyValueCloneable == $clone);
+    )+ };
+}
+fn t_handles2_h() {
+    all_backends!(typed_iter_rows!(u8));
+    all_backends!(typed_iter_rows!(SendOnly));
+    all_backends!(typed_iter_rows!(SyncOnly));
+    all_backends!(typed_iter_rows!(Neither));
+    all_backends!(cloneable_rows!(dyn None, false));
+    all_backends!(cloneable_rows!(dyn Send, false));
+    all_backends!(cloneable_rows!(dyn Send + Sync, false));
+    all_backends!(cloneable_rows!(dyn Cloneable, true));
+    all_backends!(cloneable_rows!(dyn Cloneable + Send, true));
+    all_backends!(cloneable_rows!(dyn Cloneable + Send + Sync, true));
+    cell!(crate::ops::Iter<crate::ops::drain::Drain<'static, AnyVecRawPtr<u8, Stack<8>>>>: Send == true);
+    kani::cover!(true, "REACHED");
+}
+
 fn t_handles_h() {
     all_backends!(handle_rows!(dyn None));
     all_backends!(handle_rows!(dyn Send));
